@@ -87,7 +87,21 @@ type Addr int
 const (
 	ByName Addr = iota
 	ByKey
+	// ByLongKey addresses the account by its public key followed by extra bytes (Dirk's fetcher looks
+	// accounts up by the first 48 bytes, so this resolves to the same account).
+	ByLongKey
 )
+
+// RandAddr draws an addressing mode: mostly by name or by key, sometimes by an over-long key.
+func RandAddr(r *rand.Rand) Addr {
+	switch p := r.Intn(20); {
+	case p < 9:
+		return ByName
+	case p < 18:
+		return ByKey
+	}
+	return ByLongKey
+}
 
 // AttCase is one attestation signing request.
 type AttCase struct {
@@ -136,10 +150,18 @@ func b32(b []byte) [32]byte {
 }
 
 func addrOf(name string, key *rig.Key, a Addr) (string, []byte) {
-	if a == ByKey {
+	switch a {
+	case ByKey:
 		return "", key.Pub
+	case ByLongKey:
+		return "", LongKey(key)
 	}
 	return name, nil
+}
+
+// LongKey is the public key followed by two bytes derived from it.
+func LongKey(key *rig.Key) []byte {
+	return append(append([]byte{}, key.Pub...), key.Pub[0]^0x5a, key.Pub[1])
 }
 
 // Via selects the boundary a request is issued through.
@@ -303,8 +325,9 @@ func pbAttData(d *rules.SignBeaconAttestationData) *pb.AttestationData {
 
 func pbAttReq(c *AttCase) *pb.SignBeaconAttestationRequest {
 	r := &pb.SignBeaconAttestationRequest{Domain: c.Data.Domain, Data: pbAttData(c.Data)}
-	if c.Addr == ByKey {
-		r.Id = &pb.SignBeaconAttestationRequest_PublicKey{PublicKey: c.Key.Pub}
+	if c.Addr != ByName {
+		_, k := addrOf(c.Name, c.Key, c.Addr)
+		r.Id = &pb.SignBeaconAttestationRequest_PublicKey{PublicKey: k}
 	} else {
 		r.Id = &pb.SignBeaconAttestationRequest_Account{Account: c.Name}
 	}
@@ -367,8 +390,9 @@ func (e *Env) SignProp(via Via, c *PropCase) (core.Result, []byte) {
 	if via == ViaHandler {
 		req := &pb.SignBeaconProposalRequest{Domain: c.Data.Domain, Data: &pb.BeaconBlockHeader{
 			Slot: c.Data.Slot, ProposerIndex: c.Data.ProposerIndex, ParentRoot: c.Data.ParentRoot, StateRoot: c.Data.StateRoot, BodyRoot: c.Data.BodyRoot}}
-		if c.Addr == ByKey {
-			req.Id = &pb.SignBeaconProposalRequest_PublicKey{PublicKey: c.Key.Pub}
+		if c.Addr != ByName {
+			_, k := addrOf(c.Name, c.Key, c.Addr)
+			req.Id = &pb.SignBeaconProposalRequest_PublicKey{PublicKey: k}
 		} else {
 			req.Id = &pb.SignBeaconProposalRequest_Account{Account: c.Name}
 		}
@@ -386,8 +410,9 @@ func (e *Env) SignProp(via Via, c *PropCase) (core.Result, []byte) {
 
 func pbGenReq(c *GenCase) *pb.SignRequest {
 	r := &pb.SignRequest{Domain: c.Data.Domain, Data: c.Data.Data}
-	if c.Addr == ByKey {
-		r.Id = &pb.SignRequest_PublicKey{PublicKey: c.Key.Pub}
+	if c.Addr != ByName {
+		_, k := addrOf(c.Name, c.Key, c.Addr)
+		r.Id = &pb.SignRequest_PublicKey{PublicKey: k}
 	} else {
 		r.Id = &pb.SignRequest_Account{Account: c.Name}
 	}
